@@ -19,7 +19,7 @@ ALL_CHECKS = ["C04", "C05", "C08", "C03", "C10", "C11", "C18", "C06", "R08", "R0
 BASE = dict(Splits=frozenset({"train", "test"}), FillerDirs=frozenset({(), ("s",), ("s", "t")}),
             WriterNames=("u1", "u2", "u3", "u4", "u5", "u6"), EPS=2, MDs=frozenset({"None"}),
             Kinds=frozenset({"good"}), Streaming=False, Hashing=True, Atomic=True, MaxSessions=2, MaxWrites=3,
-            MaxK=2, Dedupe=True, EmptyRoll=False, MdByRef=False, UseRef=False, Protocol="good", NoMkdir=False, CheckChildren=True, MaxMoves=0, CrashOn=False, ReaderOn=False)
+            MaxK=2, Dedupe=True, EmptyRoll=False, MdByRef=False, UseRef=False, Protocol="good", NoMkdir=False, CheckChildren=True, MaxMoves=0, MaxCrashes=0, MaxAborts=0, CrashOn=False, ReaderOn=False)
 
 INVARIANTS = ["TypeOK", "NoSessionFails", "C04_Exact", "C05_Pass", "C08_AppendOnly", "C03_WriteOrder", "C10_Size",
               "C11_Label", "C18_AllOrNothing", "C06_CrashSafe", "C09_NoSharedPath"]
@@ -70,7 +70,7 @@ def behaviour_to_task(beh, **opts) -> dict:
         labels.append((nm, tlaval.plain(args)))
         quiescent = (st["ctl"]["mode"] == "idle" and not st["failed"] and not st["crashed"]
                      and all(not pr["todo"] for pr in st["procs"].values()) and ("info",) in st["files"])
-        if quiescent and nm in ("Create", "Open", "SessionDone", "MultiDone"):
+        if quiescent and nm in ("Create", "Open", "SessionDone", "MultiDone", "MultiAbort"):
             files = dsreal.spec_files(st["files"])
             mem = dsreal.spec_table(st["mem"]) if "none" not in st["mem"] else {"none": True}
             cfiles, (cmem,), _ = dsreal.canonical(files, extra=(mem,))
